@@ -16,10 +16,8 @@ import (
 	"encoding/json"
 	"fmt"
 	"math/rand/v2"
-	"os"
 	"sort"
 	"strings"
-	"time"
 
 	"ariga.io/atlas/sql/mysql"
 	"ariga.io/atlas/sql/postgres"
@@ -226,10 +224,13 @@ func evaluate(cs Case, final *dmodel.Model) (res result) {
 	if err != nil {
 		return result{verdict: "harness", key: "HARNESS|case", what: err.Error()}
 	}
+	if cs.Class == "realm-add-schema" || cs.Class == "realm-drop-schema" {
+		return evalRealmSchemas(cs, a)
+	}
 	identity := strings.HasPrefix(cs.Class, "identity")
 	if !identity || cs.Class != "identity:genname" {
 		if why := dmodel.Ambiguous(a, b); why != "" {
-			return result{verdict: "ood", oodClass: "ambiguous", what: why, kinds: kinds}
+			return result{verdict: "ood", oodClass: "no-demand:" + strings.Join(strings.Fields(why)[:3], "-"), what: why, kinds: kinds}
 		}
 		res.want = dmodel.RefDiff(a, b)
 	}
@@ -314,6 +315,58 @@ func evaluate(cs Case, final *dmodel.Model) (res result) {
 	}
 	res.key = res.keys[0]
 	res.what = fmt.Sprintf("%s %s: change set differs from the reference: missing %v, extra %v", cs.Dialect, cs.Class, dmodel.DescStrings(missing), dmodel.DescStrings(extra))
+	return res
+}
+
+// evalRealmSchemas: a realm gains (or loses) a whole second schema that holds a copy of the model. The
+// expected changes are stated here directly: AddSchema plus one AddObject per enum and one AddTable per
+// table (schemas and their elements are separate changes), or a single DropSchema.
+func evalRealmSchemas(cs Case, m *dmodel.Model) (res result) {
+	second := m.Clone()
+	second.Schema = m.Schema + "_2"
+	g := func(x *dmodel.Model, i int) *schema.Schema {
+		if cs.Src[i] == "hcl" && dmodel.HCLExpressible(x) {
+			if s, err := dmodel.Eval(x); err == nil {
+				s.Realm = nil
+				return s
+			}
+		}
+		return dmodel.Build(x)
+	}
+	one, two := schema.NewRealm(g(m, 0)), schema.NewRealm(g(m, 1), g(second, 1))
+	from, to := one, two
+	if cs.Class == "realm-add-schema" {
+		res.want = append(res.want, dmodel.Desc{Kind: "AddSchema", Object: second.Schema})
+		for _, e := range second.Enums {
+			res.want = append(res.want, dmodel.Desc{Kind: "AddObject", Object: e.Name})
+		}
+		for _, t := range second.Tables {
+			res.want = append(res.want, dmodel.Desc{Kind: "AddTable", Table: t.Name})
+		}
+	} else {
+		from, to = two, one
+		res.want = append(res.want, dmodel.Desc{Kind: "DropSchema", Object: second.Schema})
+	}
+	changes, err := differ(dmodel.Dialect(cs.Dialect)).RealmDiff(from, to, schema.DiffNormalized())
+	if err != nil {
+		res.verdict, res.errText = "violated", err.Error()
+		res.key = fmt.Sprintf("%s|normalized|error", cs.Dialect)
+		res.keys = []string{res.key}
+		res.what = "RealmDiff returned an error for a valid pair: " + res.errText
+		return res
+	}
+	res.got = dmodel.Flatten(changes, "")
+	missing, extra := dmodel.MultisetDiff(res.want, res.got)
+	if len(missing)+len(extra) == 0 {
+		res.verdict = "held"
+		return res
+	}
+	res.verdict = "violated"
+	for _, comp := range components(missing, extra, m, m) {
+		res.keys = append(res.keys, fmt.Sprintf("%s|normalized|realm-schemas|%s", cs.Dialect, comp))
+	}
+	res.key = res.keys[0]
+	res.what = fmt.Sprintf("%s %s: change set differs from the expectation: missing %v, extra %v", cs.Dialect, cs.Class, dmodel.DescStrings(missing), dmodel.DescStrings(extra))
 	return res
 }
 
@@ -472,6 +525,9 @@ func generate(c *rt.Ctx) []Case {
 					n++
 				}
 			}
+			for i, cl := range []string{"realm-add-schema", "realm-drop-schema"} {
+				cases = append(cases, Case{Dialect: string(d), Model: m.Name, Class: cl, Src: srcs(mi + i), API: "realm"})
+			}
 			if _, _, ok := dmodel.GenNameVariant(m); ok {
 				id("genname", srcs(0), "schema", nil)
 				id("genname", srcs(1), "schema", nil)
@@ -545,11 +601,9 @@ func drawWalk(cs Case) (Case, *dmodel.Model) {
 }
 
 func run(c *rt.Ctx) {
-	t0 := time.Now()
 	hclShare = c.Pick(12, 4)
 	loadPools()
 	cases := generate(c)
-	fmt.Fprintln(os.Stderr, "c02: generated", len(cases), "cases in", time.Since(t0))
 	// self-consistency of the two independent statements of the expectation: for every single edit the
 	// catalogue's descriptors must equal the reference differ's (a disagreement is a harness bug).
 	for _, d := range dmodel.Dialects {
@@ -569,7 +623,6 @@ func run(c *rt.Ctx) {
 			c.Count(string(d)+":pool-models", 1)
 		}
 	}
-	fmt.Fprintln(os.Stderr, "c02: catalogue self-check done at", time.Since(t0))
 	c.Par(len(cases), func(i int, w *rt.W) {
 		cs := cases[i]
 		w.Begin(cs)
@@ -596,6 +649,9 @@ func run(c *rt.Ctx) {
 		}
 		for _, g := range res.got {
 			c.Count(fmt.Sprintf("%s:observed:%s", cs.Dialect, g.Kind), 1)
+			if strings.HasSuffix(g.Kind, "Attr") {
+				c.Count(fmt.Sprintf("%s:observed:%s", cs.Dialect, g.KindBits()), 1)
+			}
 			if g.Bits != 0 {
 				for _, bn := range dmodel.BitNames(g.Bits) {
 					c.Count(fmt.Sprintf("%s:observed:%s.Change%s", cs.Dialect, g.Kind, bn), 1)
@@ -618,7 +674,6 @@ func run(c *rt.Ctx) {
 			c.Sample(map[string]any{"case": cs, "expected": dmodel.DescStrings(res.want), "observed": dmodel.DescStrings(res.got), "verdict": "held"})
 		}
 	})
-	fmt.Fprintln(os.Stderr, "c02: cases done at", time.Since(t0))
 	c.Finish("flattened real change set of DefaultDiff.{SchemaDiff,RealmDiff,TableDiff}(from, to, DiffNormalized) == multiset of the model-level reference differ (kind, table, object, exact ChangeKind bits), for the exhaustive single-edit slice (both directions) of every pool model, seeded k-edit walks, and identity cases (same graph, DSL/HCL copies, permutation classes, generated index names, legacy mode) which must be empty; for single edits the catalogue's own expectation must agree with the reference. distinct = distinct (dialect, edit kinds, observed change multiset), non-trivial = non-empty observed change set",
 		map[string]any{"exhaustive": "single-edit slice of the catalogue on every pool model", "cases": len(cases)})
 }
